@@ -144,12 +144,14 @@ pub fn tls(args: &[&str]) -> Option<Vec<String>> {
     let server = std::thread::spawn(move || serve_tls(listener, clear, tlss, ident, wrapper));
     let env = Envelope::new(Some("a@b.c".parse().ok()?), vec!["x@y.z".parse().ok()?]).ok()?;
     let hello = ClientId::Domain("c.example".into());
-    let result = match client {
+    // an upper-case client letter: the transport is built with `.timeout(None)`
+    let io_timeout = if client.chars().all(|c| c.is_ascii_uppercase()) { None } else { Some(Duration::from_secs(3)) };
+    let result = match client.to_ascii_lowercase().as_str() {
         "s" => {
             let mut b = SmtpTransport::builder_dangerous(crate::util::lo())
                 .port(port)
                 .hello_name(hello)
-                .timeout(Some(Duration::from_secs(3)))
+                .timeout(io_timeout)
                 .tls(tlscfg)
                 .pool_config(PoolConfig::new().max_size(1));
             if mechs_s != "-" {
@@ -167,7 +169,7 @@ pub fn tls(args: &[&str]) -> Option<Vec<String>> {
                 let mut b = AsyncSmtpTransport::<Tokio1Executor>::builder_dangerous(crate::util::lo())
                     .port(port)
                     .hello_name(hello)
-                    .timeout(Some(Duration::from_secs(3)))
+                    .timeout(io_timeout)
                     .tls(tlscfg)
                     .pool_config(PoolConfig::new().max_size(1));
                 if mechs_s != "-" {
